@@ -80,9 +80,19 @@ def run_harness(binpath, args, stdout_path=None, stdin_path=None, timeout=3600):
     finally:
         if stdout_path:
             so.close()
+    if p.returncode == 3 and "HANG key=" in (p.stderr or ""):
+        raise HarnessHang(p.stderr.split("HANG key=")[-1].strip().splitlines()[0])
     if p.returncode != 0:
         raise ToolError("harness %s exited %d: %s" % (" ".join(map(str, args)), p.returncode, p.stderr[-2000:]))
     return p.stdout if not stdout_path else None
+
+
+class HarnessHang(Exception):
+    """The code under test did not return from a case (watchdog of the harness)."""
+
+    def __init__(self, key):
+        Exception.__init__(self, "case %s did not return" % key)
+        self.key = key
 
 
 # ------------------------------------------------------------------ TLC
@@ -457,7 +467,24 @@ def exec_and_validate(chk, binpath, sub, tv_module, cases_path, jvms=8, what="hi
     violation (with a replay file holding the case) per rejected record."""
     trace = cases_path + ".trace"
     t0 = time.time()
-    run_harness(binpath, [sub, "exec", cases_path] + (exec_args or []), stdout_path=trace)
+    try:
+        run_harness(binpath, [sub, "exec", cases_path] + (exec_args or []), stdout_path=trace)
+    except HarnessHang as h:
+        # termination is part of every statement ("returns ..."): a call that does not come
+        # back is a violation, reported with the case that hung
+        case = None
+        for ln in open(cases_path):
+            try:
+                c = json.loads(ln)
+            except ValueError:
+                continue
+            if str(c.get("k")) == h.key:
+                case = c
+                break
+        log("[exec] %s: case %s did not return within the watchdog limit" % (sub, h.key))
+        chk.violation(h.key, {"sub": sub, "tv": tv_module, "case": case, "info": ["hang"], "exec_args": exec_args or []},
+                      what="%s %s did not return (harness watchdog)" % (what, h.key))
+        return 0, 0, []
     t1 = time.time()
     nrec, nev, bad = validate_trace(tv_module, trace, jvms=jvms, env=env)
     log("[tv] %s: %d records / %d events from the real code judged by %s in %.1fs (exec %.1fs): %d rejected" % (
